@@ -4,7 +4,28 @@ import json, os
 ROOT = os.path.dirname(os.path.abspath(__file__))
 props = [json.loads(l) for l in open(os.path.join(ROOT, 'properties.jsonl'))]
 
+MUXNOTE = ('Trusted: Lean kernel + propext/Classical.choice/Quot.sound; the hand-written model (lean/RxModel) is tied to /repo by the '
+           'differential correspondence check of every run (strict equality of per-source-event output chunks and of the mux traces at internal '
+           'boundaries between the real code, the index-addressed model L1 and the keyed reference L2); RxPY, CPython ==/hash/dict order/deepcopy '
+           'are modelled, not verified; the store is an index-addressed map (its refinement is C14). Theorems about nested splitters/tee_map '
+           'refinement (tier 2) are not all proved yet: nesting beyond flat pipelines is covered by the L1=L2 comparison on every case.')
+
+def mux(text, design, technique):
+    return dict(text=text, design=design, technique=technique, note=MUXNOTE)
+
 CLAIMED = {
+ 'C01': mux('Theorems: lift_eq/comp_implements/impl_eq_ref (index-addressed implementation = keyed reference semantics on every well-formed trace, for flat pipelines of any length), C01_mux_lifetime (a key lifetime emits the local meaning of the pipeline on its items), C01_stage_map (plain = keyed for map); remaining dual-mode stages, tee_map and nesting are decided by the correspondence check (real mux path, real plain path, model L1/L2/plain) and by the oracle real-mux-per-group vs real-plain.', '§7 C01', 'Lean 4 proof (refinement by induction over trace and pipeline syntax) + differential correspondence; oracle: real keyed run per group vs real plain run'),
+ 'C02': mux('Theorems: C02_impl_eq_ref, C02_other_keys (events emitted for a key are a function of that key\'s own events), C02_lifetime (a lifetime emits the local meaning of its items and leaves the slot empty), C02_confinement (the same for the index-addressed implementation on every well-formed trace incl. sparse/reused indices) for flat pipelines of per-key operators; splitters/tee nesting by correspondence + oracle (context run vs standalone run of every observed lifetime).', '§7 C02', 'Lean 4 proof (simulation invariant between index-addressed store and keyed state) + differential correspondence; oracle: lifetime in context vs standalone real run'),
+ 'C03': mux('Theorems: C03_ref_preserves, C03_output, C03_root, C03_all_boundaries (every boundary of a supported pipeline carries a well-formed trace, closed when the input is); for splitters/tee the monitor is run on every real boundary trace (oracle) and boundary traces are compared with the model.', '§7 C03', 'Lean 4 proof (protocol monitor preserved by the keyed lift; structural recursion over the pipeline) + protocol monitor on real boundary traces'),
+ 'C04': mux('Theorems: C04_groups (no group completes before the parent; at completion groups are completed in first-appearance order and group k holds exactly the items of key k in source order), C04_partition, C04_first_appearance, about the mapper-dict splitter of one parent lifetime.', '§7 C04', 'Lean 4 proof (invariant over the item list) + differential correspondence; oracle on real boundary traces'),
+ 'C05': mux('Theorems: C05_full_windows (after any prefix the completed windows are exactly windows 0..c-1 in opening order, each with its w consecutive items), C05_ring_invariant, C05_slots_suffice, for all window/stride >= 1 and all lengths; the completion-time flush order is decided by correspondence + oracle (exhaustive small (w,s,length) sweep).', '§7 C05', 'Lean 4 proof (ring-slot invariant, unbounded w/s/length) + exhaustive small sweep + differential correspondence'),
+ 'C06': mux('Theorems: C06_segments (segments = maximal runs of equal predicate value, last one completed at key completion, none for an empty key), C06_runs_partition, C06_runs_maximal.', '§7 C06', 'Lean 4 proof (simulation against a run-splitting function) + differential correspondence; oracle on real boundary traces'),
+ 'C07': mux('Theorems: C07_partition (every item in exactly one session, in order), C07_step (the per-item rule: inclusive timeouts, closing item inclusive/exclusive, reference/previous timestamps), C07_last_is_previous, for all four None/present timeout combinations.', '§7 C07', 'Lean 4 proof (invariant + case analysis of the rule) + exhaustive small timelines + differential correspondence'),
+ 'C08': mux('Theorems: C08_decompose (per source event the tee output is the join, in branch order, of the chunks the branches emit when run alone), C08_branch_alone, C08_merge, C08_zip, C08_combine, C08_lifecycle (all slots of a key reset at completion); oracle: branches run alone on the real code, joined by the rule of the statement, vs the real tee_map (mux, plain, under key-reusing parents).', '§7 C08', 'Lean 4 proof (decomposition lemma) + differential correspondence; oracle: real branches alone + join rule vs real tee_map'),
+ 'C09': mux('Theorems: C09_stream, C09_reduce, C09_agree, C09_term, C09_error, C09_error_absent, C09_plain, for every accumulator/seed/terminator/item list; seed isolation across keys and lifetimes is decided by the correspondence check with mutating accumulators and by C02.', '§7 C09', 'Lean 4 proof (fold algebra by induction) + differential correspondence with mutating accumulators'),
+ 'C10': mux('Theorems: C10_first, C10_last, C10_take, C10_distinct (= eraseDupsBy), C10_lag1, C10_pad_start, C10_pad_end, C10_start_with, C10_sort (stable ordered permutation); lag(n), batch, distinct_until_changed and the plain variants are decided by the exhaustive small-sequence correspondence sweep and the list-semantics oracle.', '§7 C10', 'Lean 4 proof (list semantics by induction) + exhaustive short sequences x parameters + differential correspondence'),
+ 'C11': mux('Theorems: C11_causal (chunks of a prefix never depend on what follows, for every operator), C11_causal_local, C11_map_chunks, C11_scan_chunks, C11_reduce_chunks, C11_take_chunks, C11_roll_prompt, C11_wrap_chunk; the position of every real output is compared with the model chunk index and with the position required by the statement.', '§7 C11', 'Lean 4 proof (chunk equations) + per-source-position differential correspondence'),
+ 'C13': mux('Theorems: C13_map_one_error, C13_filter_one_error, C13_scan_one_error, C13_ignore_map, C13_map_err_in_place, C13_router_dead_letters, C13_unhandled; handlers after filter/scan, the dead-letter channel and interleavings by correspondence + oracle (real run without the failing items).', '§7 C13', 'Lean 4 proof + differential correspondence; oracle: real run on the input without the failing items'),
  'C15': dict(
     text='Kernel-checked Lean 4 theorems (C15_line, C15_line_rechunk, C15_lp, C15_lp_incomplete, C15_prefix_roundtrip, C15_lp_frame_guard) over an executable model of line.unframe and length_prefix.unframe: for every item list, every chunking (empty chunks, cuts anywhere), every prefix size >= 1 and both byte orders the un-framer returns exactly the items; the model is tied to /repo on every run by a differential check that drives the real operators chunk by chunk and compares per-chunk outputs with the compiled model.',
     design='§7 C15', technique='Lean 4 proof by induction over the chunk list (split-over-append lemma) + differential correspondence check',
